@@ -172,6 +172,7 @@ def register_cache(reg):
                  raises={'ValueError': ['old(length) <= 0']},
                  modifies=['self.length', 'self.level'],
                  ensures=[('positive', 'old(length) > 0'),
+                          ('covers-no-more-than-asked', 'self.length <= old(length)'),
                           ('noop-if-not-shorter', 'implies(old(length) >= old(self.length), self.length == old(self.length) and '
                                                   'len(self.level) == len(old(self.level)))'),
                           ('aligned-down', 'implies(old(length) < old(self.length), self.length == '
